@@ -7,7 +7,8 @@ Require Import Floats.SpecFloat.
 Require Import ZArith Bool List Reals.
 From Flocq Require Import Core BinarySingleNaN.
 From Dasp Require Import Base.Res Base.Float Dsp.MInt Dsp.EnvNum Dsp.EnvNumR Dsp.Peak Dsp.Envelope
-  Dsp.PeakProofs Dsp.EnvelopeProofs Dsp.EnvelopeIEEE Dsp.EnvelopeIntProofs Dsp.EnvelopeExamples.
+  Dsp.PeakProofs Dsp.EnvelopeProofs Dsp.EnvelopeIEEE Dsp.EnvelopeIntProofs Dsp.EnvelopeExamples
+  Dsp.EnvelopeCtorProofs.
 Import ListNotations.
 
 (* ---------------- rectifiers ---------------- *)
@@ -154,6 +155,28 @@ Theorem c19_setters_subsequent : forall (N : num) (dt : detector N) (ops1 ops2 :
   last_env (snd (det_op N (snd (det_run N dt ops1)) o)) = last_env (snd (det_run N dt ops1)).
 Proof. exact setter_only_subsequent. Qed.
 Print Assumptions c19_setters_subsequent.
+
+(* constructors (round 3, coverage closing): Detector::peak_from_rectifier(R, a, r) is the detector the
+   constructor named after R builds, and every construction path the correspondence uses (named,
+   peak_from_rectifier, Detector::new(Peak::from(R), ..)) uses rectifier R with the attack and release
+   times in the order given *)
+Theorem c19_peak_from_rectifier : forall (G : Type) (which : Z) (a r : G),
+  (which = 0 \/ which = 1 \/ which = 2)%Z ->
+  peak_ctor_from_rectifier which a r = peak_ctor_named which a r.
+Proof. exact @peak_from_rectifier_named. Qed.
+Print Assumptions c19_peak_from_rectifier.
+
+Theorem c19_peak_ctor : forall (G : Type) (ctor which : Z) (a r : G),
+  (which = 0 \/ which = 1 \/ which = 2)%Z ->
+  peak_ctor ctor which a r = (which, a, r).
+Proof. exact @peak_ctor_same. Qed.
+Print Assumptions c19_peak_ctor.
+
+(* derive(Clone) on the detector: the clone is the same state and continues as the original would *)
+Theorem c19_detector_clone : forall (N : num) (dt : detector N) (ops : list (dop N)),
+  det_clone N dt = dt /\ det_run N (det_clone N dt) ops = det_run N dt ops.
+Proof. exact detector_clone_spec. Qed.
+Print Assumptions c19_detector_clone.
 
 (* ---------------- IEEE companion (the model as executed: binary32 / binary64) ----------------
    The update stays between d and L' = RN(d + RN(l - d)), and L' is l up to two half-ulp
